@@ -145,12 +145,13 @@ def hasGarbage (on : Bool) (s : String) : Bool :=
     | "P" :: _ :: flags :: props => activeFlags on flags && props.any (fun p => (p.splitOn "=x:").length > 1)
     | _ => false
 
-/-- the file declares the structured buffer whose element layouts differ between HLSL and Metal
-    (observed: `check_layout` does not look inside an *array* of such buffers) -/
+/-- the file declares the structured buffer whose element layouts differ between HLSL and Metal — as a single
+    buffer or as an array of any shape (sized, unsized, through a typedef): `check_layout` removes the array layers
+    of a global and the modifiers between them before it looks for a structured buffer (fixes d99f90e, bdddd35) -/
 def hasLayoutTrap (s : String) : Bool :=
   (s.splitOn " | ").any fun item =>
     match (item.splitOn " ").filter (· ≠ "") with
-    | "R" :: _ :: kind :: len :: _ => kind == "TrapBuffer" && len == "-"
+    | "R" :: _ :: kind :: _ => kind == "TrapBuffer"
     | _ => false
 
 /-- a function defined twice (same name, signature, scope): a front-end error outside the model -/
